@@ -893,3 +893,330 @@ Proof.
   unfold seg_cert_ok. rewrite !andb_true_iff. intros ((Hf & Hlen) & Heq) q Hw Hh Hl Hv.
   apply Nat.eqb_eq in Hlen. pose proof (seg_bound_le g t inc pis s q Hf Hlen Hw Hh Hl Hv). lia.
 Qed.
+
+(* ------------------------------------------------------------------ uniqueness of a forced path *)
+Definition adj (q : list Z) (u v : Z) : Prop := exists l1 l2, q = l1 ++ u :: v :: l2.
+Fixpoint all_adj (q p : list Z) : Prop :=
+  match p with
+  | u :: ((v :: _) as p') => adj q u v /\ all_adj q p'
+  | _ => True
+  end.
+
+Lemma walk_app_edge g : forall l1 u x l2, is_walk g (l1 ++ u :: x :: l2) -> In x (map fst (succs g u)).
+Proof.
+  induction l1 as [|a l1 IH]; intros u x l2 H.
+  - cbn [app] in H. destruct H as (H & _). exact H.
+  - cbn [app] in H. destruct l1 as [|b l1'].
+    + cbn [app] in H. destruct H as (_ & H). apply (IH u x l2). exact H.
+    + cbn [app] in H. destruct H as (_ & H). apply (IH u x l2). exact H.
+Qed.
+
+Lemma only_succ_spec g u v : only_succ g u v = true -> forall x, In x (map fst (succs g u)) -> x = v.
+Proof.
+  unfold only_succ. destruct (succs g u) as [|(y, w) [|? ?]]; try discriminate.
+  intros H x [Hx|[]]. cbn in Hx. lia.
+Qed.
+
+Lemma only_pred_spec g u v : only_pred g u v = true -> forall x, In v (map fst (succs g x)) -> x = u.
+Proof.
+  unfold only_pred. rewrite forallb_forall. intros H x Hin.
+  apply in_map_iff in Hin. destruct Hin as (vw & Hv & Hin).
+  destruct (succs_key _ _ _ Hin) as (r & Hr & Hfx). specialize (H r Hr). rewrite Hfx in H.
+  assert (Hm : memZ v (map fst (succs g x)) = true).
+  { apply memZ_In. apply in_map_iff. exists vw. split; assumption. }
+  rewrite Hm in H. lia.
+Qed.
+
+Lemma last_app_cons {A} (l1 : list A) x l2 d : last (l1 ++ x :: l2) d = last (x :: l2) d.
+Proof.
+  induction l1 as [|a l1 IH]; [reflexivity|]. cbn [app]. destruct (l1 ++ x :: l2) eqn:E.
+  - destruct l1; discriminate.
+  - rewrite <- E. rewrite <- IH. rewrite E. reflexivity.
+Qed.
+
+Lemma adj_fwd g q t u v :
+  is_walk g q -> last q t = t -> In u q -> only_succ g u v = true -> u <> t -> adj q u v.
+Proof.
+  intros Hw Hl Hin Hs Hne. apply in_split in Hin. destruct Hin as (l1 & l2 & ->).
+  destruct l2 as [|x l2'].
+  - rewrite last_app_cons in Hl. cbn in Hl. congruence.
+  - pose proof (walk_app_edge g l1 u x l2' Hw) as He. rewrite (only_succ_spec g u v Hs x He). exists l1, l2'. reflexivity.
+Qed.
+
+Lemma adj_bwd g q s u v :
+  is_walk g q -> hd_error q = Some s -> In v q -> only_pred g u v = true -> v <> s -> adj q u v.
+Proof.
+  intros Hw Hh Hin Hp Hne. apply in_split in Hin. destruct Hin as (l1 & l2 & ->).
+  destruct (exists_last (l := l1)) as (l1' & x & ->).
+  - intros ->. cbn in Hh. congruence.
+  - rewrite <- app_assoc in Hw. cbn [app] in Hw. pose proof (walk_app_edge g l1' x v l2 Hw) as He.
+    rewrite (only_pred_spec g u v Hp x He). exists l1', l2. rewrite <- app_assoc. reflexivity.
+Qed.
+
+Lemma nodup_split_unique : forall (a a' : list Z) x b b',
+  NoDup (a ++ x :: b) -> a ++ x :: b = a' ++ x :: b' -> a = a' /\ b = b'.
+Proof.
+  induction a as [|y a IH]; intros a' x b b' Hnd Heq.
+  - destruct a' as [|y' a'']; cbn [app] in *.
+    + injection Heq as ->. split; reflexivity.
+    + injection Heq as <- ->. exfalso. inversion Hnd as [|? ? Hn _]. apply Hn. apply in_or_app. right. left. reflexivity.
+  - destruct a' as [|y' a'']; cbn [app] in *.
+    + injection Heq as -> <-. exfalso. inversion Hnd as [|? ? Hn _]. apply Hn. apply in_or_app. right. left. reflexivity.
+    + injection Heq as <- Heq. inversion Hnd as [|? ? _ Hnd']. destruct (IH _ _ _ _ Hnd' Heq) as (-> & ->).
+      split; reflexivity.
+Qed.
+
+Lemma prefix_from q : NoDup q -> forall p u pre suf,
+  all_adj q (u :: p) -> q = pre ++ u :: suf -> exists rest, suf = p ++ rest.
+Proof.
+  intros Hnd. induction p as [|v p' IH]; intros u pre suf Ha Hq.
+  - exists suf. reflexivity.
+  - destruct Ha as ((l1 & l2 & Hadj) & Ha').
+    assert (Hnd' : NoDup (pre ++ u :: suf)) by (rewrite <- Hq; exact Hnd).
+    rewrite Hq in Hadj. destruct (nodup_split_unique _ _ _ _ _ Hnd' Hadj) as (-> & ->).
+    destruct (IH v (l1 ++ [u]) l2 Ha') as (rest & ->).
+    + rewrite Hq. rewrite <- app_assoc. reflexivity.
+    + exists rest. reflexivity.
+Qed.
+
+Lemma nodup_app_disj : forall (a b : list Z) x, NoDup (a ++ b) -> In x a -> In x b -> False.
+Proof.
+  induction a as [|y a IH]; intros b x Hnd Ha Hb; [destruct Ha|].
+  cbn [app] in Hnd. inversion Hnd as [|? ? Hn Hnd']; subst. destruct Ha as [->|Ha].
+  - apply Hn. apply in_or_app. right. exact Hb.
+  - exact (IH b x Hnd' Ha Hb).
+Qed.
+
+Lemma forced_unique q p s t :
+  NoDup q -> hd_error q = Some s -> last q t = t ->
+  hd_error p = Some s -> last p t = t -> all_adj q p -> q = p.
+Proof.
+  intros Hnd Hhq Hlq Hhp Hlp Ha.
+  destruct q as [|s' suf]; [discriminate|]. cbn in Hhq. injection Hhq as ->.
+  destruct p as [|s' p']; [discriminate|]. cbn in Hhp. injection Hhp as ->.
+  destruct (prefix_from _ Hnd p' s [] suf Ha eq_refl) as (rest & ->).
+  destruct rest as [|x rest']; [rewrite app_nil_r; reflexivity|]. exfalso.
+  (* t is the last element of s :: p' and of the longer list: it would occur twice *)
+  assert (Hin1 : In t (s :: p')) by (rewrite <- Hlp at 1; apply last_In; discriminate).
+  change (s :: p' ++ x :: rest') with ((s :: p') ++ x :: rest') in Hlq, Hnd.
+  rewrite last_app_cons in Hlq.
+  assert (Hin2 : In t (x :: rest')) by (rewrite <- Hlq at 1; apply last_In; discriminate).
+  exact (nodup_app_disj _ _ t Hnd Hin1 Hin2).
+Qed.
+
+(* ---------- the boolean certificate ---------- *)
+
+Definition Mem (q : list Z) (x : Z) (b : bool) : Prop := b = true -> In x q.
+
+Lemma fgo_sound g q t A :
+  is_walk g q -> last q t = t -> (forall x, In x A -> In x q) ->
+  forall l u fu, Mem q u fu -> Forall2 (Mem q) l (fgo g t A u fu l).
+Proof.
+  intros Hw Hl HA. induction l as [|v l IH]; intros u fu Hu; cbn [fgo]; constructor.
+  - intros H. apply orb_true_iff in H. destruct H as [H|H]; [apply HA; apply memZ_In; exact H|].
+    apply andb_true_iff in H. destruct H as (Hfu & Hf). unfold ffwd in Hf. apply andb_true_iff in Hf.
+    destruct Hf as (Hs & Hne). destruct (adj_fwd g q t u v Hw Hl (Hu Hfu) Hs ltac:(lia)) as (l1 & l2 & ->).
+    apply in_or_app. right. right. left. reflexivity.
+  - apply IH. intros H. apply orb_true_iff in H. destruct H as [H|H]; [apply HA; apply memZ_In; exact H|].
+    apply andb_true_iff in H. destruct H as (Hfu & Hf). unfold ffwd in Hf. apply andb_true_iff in Hf.
+    destruct Hf as (Hs & Hne). destruct (adj_fwd g q t u v Hw Hl (Hu Hfu) Hs ltac:(lia)) as (l1 & l2 & ->).
+    apply in_or_app. right. right. left. reflexivity.
+Qed.
+
+Lemma bgo_sound g q s A :
+  is_walk g q -> hd_error q = Some s -> (forall x, In x A -> In x q) ->
+  forall l v bv, Mem q v bv -> Forall2 (Mem q) l (bgo g s A v bv l).
+Proof.
+  intros Hw Hh HA. induction l as [|u l IH]; intros v bv Hv; cbn [bgo]; constructor.
+  - intros H. apply orb_true_iff in H. destruct H as [H|H]; [apply HA; apply memZ_In; exact H|].
+    apply andb_true_iff in H. destruct H as (Hbv & Hf). unfold fbwd in Hf. apply andb_true_iff in Hf.
+    destruct Hf as (Hp & Hne). destruct (adj_bwd g q s u v Hw Hh (Hv Hbv) Hp ltac:(lia)) as (l1 & l2 & ->).
+    apply in_or_app. right. left. reflexivity.
+  - apply IH. intros H. apply orb_true_iff in H. destruct H as [H|H]; [apply HA; apply memZ_In; exact H|].
+    apply andb_true_iff in H. destruct H as (Hbv & Hf). unfold fbwd in Hf. apply andb_true_iff in Hf.
+    destruct Hf as (Hp & Hne). destruct (adj_bwd g q s u v Hw Hh (Hv Hbv) Hp ltac:(lia)) as (l1 & l2 & ->).
+    apply in_or_app. right. left. reflexivity.
+Qed.
+
+Lemma Forall2_rev' {A B} (R : A -> B -> Prop) : forall l l', Forall2 R l l' -> Forall2 R (rev l) (rev l').
+Proof.
+  induction 1 as [|x y l l' Hxy _ IH]; [constructor|]. cbn [rev]. apply Forall2_app; [exact IH|].
+  constructor; [exact Hxy|constructor].
+Qed.
+
+Lemma fscan_sound g q t A p :
+  is_walk g q -> last q t = t -> (forall x, In x A -> In x q) -> Forall2 (Mem q) p (fscan g t A p).
+Proof.
+  intros Hw Hl HA. destruct p as [|x l]; cbn [fscan]; constructor.
+  - intros H. apply HA. apply memZ_In. exact H.
+  - apply fgo_sound; try assumption. intros H. apply HA. apply memZ_In. exact H.
+Qed.
+
+Lemma bscan_sound g q s A p :
+  is_walk g q -> hd_error q = Some s -> (forall x, In x A -> In x q) -> Forall2 (Mem q) p (bscan g s A p).
+Proof.
+  intros Hw Hh HA. unfold bscan. rewrite <- (rev_involutive p) at 1. apply Forall2_rev'.
+  destruct (rev p) as [|x l]; constructor.
+  - intros H. apply HA. apply memZ_In. exact H.
+  - apply bgo_sound; try assumption. intros H. apply HA. apply memZ_In. exact H.
+Qed.
+
+Lemma orl_sound q : forall p a b, Forall2 (Mem q) p a -> Forall2 (Mem q) p b -> Forall2 (Mem q) p (orl a b).
+Proof.
+  induction p as [|x p IH]; intros a b Ha Hb; inversion Ha; inversion Hb; subst; cbn [orl]; constructor.
+  - intros H. apply orb_true_iff in H. destruct H as [H|H]; auto.
+  - apply IH; assumption.
+Qed.
+
+Lemma echeck_sound g q s t :
+  is_walk g q -> hd_error q = Some s -> last q t = t ->
+  forall p M, Forall2 (Mem q) p M -> echeck g s t p M = true -> all_adj q p.
+Proof.
+  intros Hw Hh Hl. induction p as [|u p IH]; intros M HM He; [exact I|].
+  destruct p as [|v p']; [exact I|].
+  inversion HM as [|? mu ? M1 Hmu HM1]; subst. inversion HM1 as [|? mv ? M2 Hmv HM2]; subst.
+  cbn [echeck] in He. apply andb_true_iff in He. destruct He as (Hedge & Hrest).
+  split; [|apply (IH (mv :: M2)); assumption].
+  apply orb_true_iff in Hedge. destruct Hedge as [H|H]; apply andb_true_iff in H; destruct H as (Hf & Hm).
+  - unfold ffwd in Hf. apply andb_true_iff in Hf. destruct Hf as (Hs & Hne).
+    apply (adj_fwd g q t u v Hw Hl (Hmu Hm) Hs). lia.
+  - unfold fbwd in Hf. apply andb_true_iff in Hf. destruct Hf as (Hp & Hne).
+    apply (adj_bwd g q s u v Hw Hh (Hmv Hm) Hp). lia.
+Qed.
+
+(* a path that passes the certificate is THE route of the request: any route from s to t crossing inc equals it *)
+Theorem explicit_forced_unique n inc s t p :
+  explicit_forced n inc s t p = true -> hd_error p = Some s -> last p t = t ->
+  forall q, Route (ngraph n) s t inc q -> q = p.
+Proof.
+  unfold explicit_forced. intros Hc Hhp Hlp q (Hw & Hnd & Hh & Hl & Hv).
+  assert (HA : forall x, In x (s :: t :: inc) -> In x q).
+  { intros x [<-|[<-|Hx]].
+    - destruct q; [discriminate|]. cbn in Hh. injection Hh as ->. left; reflexivity.
+    - rewrite <- Hl at 1. apply last_In. apply (is_walk_nonempty _ _ Hw).
+    - apply (visits_In _ _ Hv). exact Hx. }
+  apply (forced_unique q p s t Hnd Hh Hl Hhp Hlp).
+  eapply echeck_sound; try eassumption.
+  apply orl_sound; [apply fscan_sound|apply bscan_sound]; assumption.
+Qed.
+
+Corollary explicit_forced_optimal n inc s t p :
+  explicit_path n inc s t = Some p -> explicit_forced n inc s t p = true ->
+  optimal (ngraph n) s t inc p.
+Proof.
+  intros He Hc. pose proof (explicit_path_route _ _ _ _ _ He) as Hr. split; [exact Hr|].
+  intros q Hq. destruct Hr as (_ & _ & Hh & Hl & _).
+  rewrite (explicit_forced_unique n inc s t p Hc Hh Hl q Hq). lia.
+Qed.
+
+(* ------------------------------------------------------------------ a route whose every line section is pinned by the list is unique *)
+(* chain structure along p: line elements have exactly one successor and one predecessor, the source transceiver one
+   successor, the destination one predecessor, and two successive ROADMs of p are separated by a line element *)
+Definition chain_hyp (n : net) (s t : Z) (p : list Z) : Prop :=
+  (forall x, In x p -> is_line n x = true ->
+     (exists y, only_succ (ngraph n) x y = true) /\ (exists w, only_pred (ngraph n) w x = true)) /\
+  (exists r, only_succ (ngraph n) s r = true) /\ (exists w, only_pred (ngraph n) w t = true) /\
+  is_line n s = false /\ is_line n t = false /\
+  (forall l1 u v l2, p = l1 ++ u :: v :: l2 -> is_line n u = true \/ is_line n v = true \/ u = s \/ v = t).
+
+(* the list names at least one element of every line section (OMS) of p: every line element of p sits in a run of
+   successive line elements of p that contains a listed element *)
+Definition covered (n : net) (inc p : list Z) : Prop :=
+  forall x, In x p -> is_line n x = true ->
+  exists m1 run m2 a, p = m1 ++ run ++ m2 /\ Forall (fun y => is_line n y = true) run /\
+                      In x run /\ In a run /\ In a inc.
+
+Lemma all_adj_intro q : forall p,
+  (forall l1 u v l2, p = l1 ++ u :: v :: l2 -> adj q u v) -> all_adj q p.
+Proof.
+  induction p as [|u p IH]; intros H; [exact I|]. destruct p as [|v p']; [exact I|]. split.
+  - apply (H [] u v p'). reflexivity.
+  - apply IH. intros l1 a b l2 E. apply (H (u :: l1) a b l2). rewrite E. reflexivity.
+Qed.
+
+
+Lemma run_fwd n (t : Z) p q :
+  is_walk (ngraph n) p -> is_walk (ngraph n) q -> last q t = t -> is_line n t = false ->
+  (forall x, In x p -> is_line n x = true -> exists y, only_succ (ngraph n) x y = true) ->
+  forall r2 a pre post, p = pre ++ a :: r2 ++ post -> is_line n a = true ->
+    Forall (fun y => is_line n y = true) r2 -> In a q -> forall y, In y r2 -> In y q.
+Proof.
+  intros Hwp Hwq Hl Hlt Hs. induction r2 as [|b r2 IH]; intros a pre post E Ha Hr Hq y Hy; [destruct Hy|].
+  assert (Hb : In b q).
+  { destruct (Hs a) as (b' & Hb'); [rewrite E; apply in_or_app; right; left; reflexivity|exact Ha|].
+    rewrite E in Hwp. cbn [app] in Hwp. pose proof (walk_app_edge _ _ _ _ _ Hwp) as He.
+    pose proof (only_succ_spec _ _ _ Hb' b He) as Hbb. subst b'.
+    assert (Hne : a <> t) by (intros ->; congruence).
+    destruct (adj_fwd _ q t a b Hwq Hl Hq Hb' Hne) as (l1 & l2 & ->).
+    apply in_or_app. right. right. left. reflexivity. }
+  destruct Hy as [<-|Hy]; [exact Hb|]. inversion Hr as [|? ? Hlb Hr'].
+  apply (IH b (pre ++ [a]) post); try assumption. rewrite E, <- app_assoc. reflexivity.
+Qed.
+
+Lemma run_bwd n (s : Z) p q :
+  is_walk (ngraph n) p -> is_walk (ngraph n) q -> hd_error q = Some s -> is_line n s = false ->
+  (forall x, In x p -> is_line n x = true -> exists w, only_pred (ngraph n) w x = true) ->
+  forall r1 a pre post, p = pre ++ r1 ++ a :: post -> is_line n a = true ->
+    Forall (fun y => is_line n y = true) r1 -> In a q -> forall y, In y r1 -> In y q.
+Proof.
+  intros Hwp Hwq Hh Hls Hp. induction r1 as [|b r1 IH] using rev_ind; intros a pre post E Ha Hr Hq y Hy; [destruct Hy|].
+  apply Forall_app in Hr. destruct Hr as (Hr1 & Hb). inversion Hb as [|? ? Hlb _].
+  assert (Hbq : In b q).
+  { destruct (Hp a) as (w & Hw); [rewrite E; apply in_or_app; right; apply in_or_app; right; left; reflexivity|exact Ha|].
+    assert (E' : p = (pre ++ r1) ++ b :: a :: post) by (rewrite E, <- !app_assoc; reflexivity).
+    rewrite E' in Hwp. pose proof (walk_app_edge _ _ _ _ _ Hwp) as He.
+    pose proof (only_pred_spec _ _ _ Hw b He) as Hbw. subst w.
+    assert (Hne : a <> s) by (intros ->; congruence).
+    destruct (adj_bwd _ q s b a Hwq Hh Hq Hw Hne) as (l1 & l2 & ->).
+    apply in_or_app. right. left. reflexivity. }
+  apply in_app_or in Hy. destruct Hy as [Hy|[<-|[]]]; [|exact Hbq].
+  apply (IH b pre (a :: post)); try assumption. rewrite E. rewrite <- !app_assoc. reflexivity.
+Qed.
+
+Theorem covered_route_unique n s t inc p :
+  Route (ngraph n) s t inc p -> chain_hyp n s t p -> covered n inc p ->
+  forall q, Route (ngraph n) s t inc q -> q = p.
+Proof.
+  intros (Hwp & Hndp & Hhp & Hlp & Hvp) (Hline & (rs & Hrs) & (wt & Hwt) & Hls & Hlt & Hkinds) Hcov
+         q (Hwq & Hndq & Hhq & Hlq & Hvq).
+  assert (Hsq : In s q) by (destruct q; [discriminate|]; cbn in Hhq; injection Hhq as ->; left; reflexivity).
+  assert (Htq : In t q) by (rewrite <- Hlq at 1; apply last_In; apply (is_walk_nonempty _ _ Hwq)).
+  (* every line element of p is on q *)
+  assert (Hmem : forall x, In x p -> is_line n x = true -> In x q).
+  { intros x Hx Hlx. destruct (Hcov x Hx Hlx) as (m1 & run & m2 & a & E & Hrun & Hxr & Har & Hai).
+    assert (Haq : In a q) by (apply (visits_In _ _ Hvq); exact Hai).
+    apply in_split in Har. destruct Har as (r1 & r2 & ->).
+    apply Forall_app in Hrun. destruct Hrun as (Hr1 & Hr2). inversion Hr2 as [|? ? Hla Hr2']; subst.
+    apply in_app_or in Hxr. destruct Hxr as [Hxr|[<-|Hxr]]; [|exact Haq|].
+    - apply (run_bwd n s _ q Hwp Hwq Hhq Hls (fun z Hz Hlz => proj2 (Hline z Hz Hlz)) r1 a m1 (r2 ++ m2)); try assumption.
+      rewrite <- !app_assoc. reflexivity.
+    - apply (run_fwd n t _ q Hwp Hwq Hlq Hlt (fun z Hz Hlz => proj1 (Hline z Hz Hlz)) r2 a (m1 ++ r1) m2); try assumption.
+      rewrite <- !app_assoc. reflexivity. }
+  apply (forced_unique q p s t Hndq Hhq Hlq Hhp Hlp). apply all_adj_intro. intros l1 u v l2 E.
+  assert (He : In v (map fst (succs (ngraph n) u))) by (rewrite E in Hwp; exact (walk_app_edge _ _ _ _ _ Hwp)).
+  assert (Hu : In u p) by (rewrite E; apply in_or_app; right; left; reflexivity).
+  assert (Hv : In v p) by (rewrite E; apply in_or_app; right; right; left; reflexivity).
+  (* s <> t: otherwise s would occur twice in p *)
+  assert (Hst : s <> t).
+  { intros <-. destruct p as [|a p']; [discriminate|]. cbn in Hhp. injection Hhp as ->.
+    destruct p' as [|b p'']; [destruct l1 as [|? [|? ?]]; discriminate|].
+    rewrite last_cons_cons in Hlp. inversion Hndp as [|? ? Hn _]. apply Hn. rewrite <- Hlp at 1. apply last_In. discriminate. }
+  destruct (is_line n u) eqn:Elu.
+  { destruct (proj1 (Hline u Hu Elu)) as (y & Hy). pose proof (only_succ_spec _ _ _ Hy v He) as Hvy. subst y.
+    apply (adj_fwd _ q t u v Hwq Hlq (Hmem u Hu Elu) Hy). intros ->. congruence. }
+  destruct (is_line n v) eqn:Elv.
+  { destruct (proj2 (Hline v Hv Elv)) as (w & Hw). pose proof (only_pred_spec _ _ _ Hw u He) as Huw. subst w.
+    apply (adj_bwd _ q s u v Hwq Hhq (Hmem v Hv Elv) Hw). intros ->. congruence. }
+  destruct (Hkinds l1 u v l2 E) as [H|[H|[-> | ->]]]; try congruence.
+  - pose proof (only_succ_spec _ _ _ Hrs v He) as Hvr. subst rs. apply (adj_fwd _ q t s v Hwq Hlq Hsq Hrs Hst).
+  - pose proof (only_pred_spec _ _ _ Hwt u He) as Huw. subst wt. apply (adj_bwd _ q s u t Hwq Hhq Htq Hwt). congruence.
+Qed.
+
+(* hence: an explicit answer whose line sections are all pinned by the list is optimal among the routes of the request *)
+Corollary explicit_path_optimal n inc s t p :
+  explicit_path n inc s t = Some p -> chain_hyp n s t p -> covered n inc p ->
+  optimal (ngraph n) s t inc p.
+Proof.
+  intros He Hc Hcov. pose proof (explicit_path_route _ _ _ _ _ He) as Hr. split; [exact Hr|].
+  intros q Hq. rewrite (covered_route_unique n s t inc p Hr Hc Hcov q Hq). lia.
+Qed.
